@@ -882,9 +882,9 @@ LEVEL_NOTE = ("Partial: the macro runs inside rustc, so the tie is its expansion
               "are covered differentially only.  The round trip through the parser is proved as soundness (the command accepts "
               "the printed line => the value comes back) and, round 3, as the equality parse(print v) = Ok v for structs of option fields "
               "(class: attribute combinations of the matches-level round trip, value ranges that admit the printed group lengths, required fields printed; the scalar print/parse inversion is proved for every element type, i64 decimal included); positionals after --, flattened structs and "
-              "subcommand enums in the composed round trip, and 'extraction cannot fail after a successful parse' below flatten / subcommand "
-              "nodes (proved for structs of argument fields, all argv) stay checked executably on every "
-              "dround / dparse case.  Four families where the unchanged "
+              "subcommand enums in the composed round trip, and 'extraction cannot fail after a successful parse' / the update statement below subcommand "
+              "nodes (both proved for all argv for structs of argument fields and flattened structs) stay checked executably on every "
+              "dround / dparse / dupdate case.  Four families where the unchanged "
               "code violates the property are recorded as known findings (update resets default-bearing fields; update "
               "materialises a None optional flatten; an optional flatten with a required member cannot be None; an optional "
               "flatten of a struct that itself flattens is always None).")
